@@ -575,6 +575,11 @@ func pIbb(args []string) string {
 	for i, n := 0, rs.Pick(0, 1, 2, 3); i < n && len(fw) > 0; i++ {
 		sz := rs.Intn(len(fw)/2 + 1)
 		off := rs.Intn(len(fw) - sz + 1)
+		if off == len(fw) {
+			// an empty segment at the very end of the image would have the base 2^32, which a 32-bit
+			// field cannot hold
+			off = len(fw) - 1
+		}
 		se2 = append(se2, segArg{flags: uint16(rs.Pick(0, 0, 2, 1)), base: uint32(uint64(1)<<32 - uint64(len(fw)) + uint64(off)), size: uint32(sz)})
 	}
 	// (they carry the correct SHA-256 digest of their own segments, and nothing is demanded for bytes that only
